@@ -12,17 +12,68 @@ var storeRealStub = map[string]string{
 
 func storeNonTrivial(p *Program, r *Result) bool { return r.Ops >= 3 }
 
+
+func w(base map[string]int, over map[string]int) map[string]int {
+	out := map[string]int{}
+	for k, v := range base {
+		out[k] = v
+	}
+	for k, v := range over {
+		out[k] = v
+	}
+	return out
+}
+
 func init() {
 	both := []string{"memory", "sqlite"}
+	reg := func(prop string, prof StoreProfile, rule string, quick, thorough int) {
+		Register(&CheckSpec{
+			Prop: prop, World: "store",
+			Gen:        func(t *rapid.T) *Program { return GenStoreProgram(t, prof) },
+			Run:        RunStoreProgram,
+			NonTrivial: storeNonTrivial,
+			Rule:       rule + "; non-trivial = >=3 operations; distinct = distinct (config, op-kind sequence) shapes",
+			RealStub:   storeRealStub,
+			Quick:      quick, Thorough: thorough,
+		})
+	}
+	reg("C02", StoreProfile{Backends: both, Limits: true, Retention: true, Pressure: true, ExplicitTS: true, MaxSteps: 45},
+		"seeded random histories of all Store operations against QueueModel with a full listing diff after every step", 16000, 1500000)
+	reg("C03", StoreProfile{Backends: both, Limits: false, Retention: true, MaxSteps: 45, ExplicitTS: true,
+		Weights: w(defaultWeights, map[string]int{"dequeue": 40, "advance": 25, "enqueue": 25, "extend": 8, "cancel": 5, "requeue": 5})},
+		"dequeue-heavy multi-consumer histories (any lease id kept and presented later) with clock advances across lease boundaries; oracle: every dequeued item was offerable (not leased-unexpired, due, right state), fresh lease id, attempt+1, lease_until=now+ttl", 16000, 1000000)
+	reg("C04", StoreProfile{Backends: both, Limits: false, Retention: true, MaxSteps: 45,
+		Weights: w(defaultWeights, map[string]int{"ack": 14, "nack": 14, "extend": 10, "dead": 10, "ack_batch": 8, "nack_batch": 8, "dead_batch": 6, "dequeue": 30, "advance": 22, "cancel": 6, "requeue": 6, "resume": 4})},
+		"histories in which every lease id ever issued (plus blank, unknown, duplicated ids) is presented again after expiry, re-lease, cancel/requeue or settlement; oracle: effect iff current unexpired lease, else conflict and no change beyond releasing the expired lease", 16000, 1000000)
+	reg("C05", StoreProfile{Backends: both, Limits: false, Retention: true, MaxSteps: 45, ExplicitTS: true,
+		Weights: w(defaultWeights, map[string]int{"dequeue": 40, "advance": 30, "nack": 15, "extend": 8, "nack_batch": 5, "enqueue": 25})},
+		"dequeue/nack/extend/expiry histories against a controlled clock; oracle at every dequeue: returned within may-set, count >= min(batch, must-set) where must = queued and due, or lease expired >= 10 ms ago (0 ms memory); not-before bounds exact", 16000, 1000000)
+	reg("C12", StoreProfile{Backends: both, Limits: true, Retention: true, Pressure: true, MaxSteps: 40, ExplicitTS: true,
+		Weights: w(defaultWeights, map[string]int{"enqueue": 45, "enqueue_batch": 18, "dequeue": 14, "ack": 6, "requeue": 4, "resume": 3})},
+		"store part: enqueue/batch sequences (duplicate ids, batches larger than remaining capacity) around max_depth under both drop policies; oracle: admitted only below max_depth, refusal leaves the listing unchanged, drop_oldest evicts oldest queued only, one per stored message", 16000, 1000000)
+	reg("C14", StoreProfile{Backends: both, Limits: false, Retention: false, MaxSteps: 50, ExplicitTS: true,
+		Weights: w(defaultWeights, map[string]int{"cancel": 10, "requeue": 10, "resume": 8, "dlq_requeue": 6, "dlq_delete": 6, "cancel_f": 12, "requeue_f": 12, "resume_f": 10, "list": 8, "list_dead": 4, "enqueue": 35, "dequeue": 20, "dead": 12, "dead_batch": 4})},
+		"store part: populations of mixed routes/targets/states/timestamps (ties included) and id lists / filters; oracle: reference selection (allowed states, every criterion, newest first by (received_at,id), cap 100/1000), everything else byte-identical, counts equal messages changed, preview changes nothing", 16000, 1000000)
+
 	Register(&CheckSpec{
-		Prop: "C02", World: "store",
+		Prop: "C13", World: "diff",
 		Gen: func(t *rapid.T) *Program {
-			return GenStoreProgram(t, StoreProfile{Backends: both, Limits: true, Retention: true, Pressure: true, ExplicitTS: true, MaxSteps: 45})
+			p := GenStoreProgram(t, StoreProfile{Backends: []string{"both"}, Limits: true, Retention: true, ExplicitTS: true, PaddedIDs: true, MaxSteps: 40})
+			p.World = "diff"
+			// Documented memory-only behaviour (docs/configuration.md,
+			// delivered_retention): with delivered retention on, max_depth also
+			// bounds queued+leased+delivered on the memory backend. W-diff does
+			// not drive the backends into that documented difference.
+			if p.Store.MaxDepth > 0 && p.Store.DeliveredMaxAge > 0 {
+				p.Store.DeliveredMaxAge = 0
+			}
+			return p
 		},
-		Run:        RunStoreProgram,
+		Run:        RunDiffProgram,
 		NonTrivial: storeNonTrivial,
-		Rule:       "seeded random histories of all Store operations against QueueModel with a full listing diff after every step; non-trivial = >=3 operations; distinct = distinct (config, op-kind sequence) shapes",
+		Rule:       "the same seeded program on MemoryStore and SQLiteStore under one simulated time line; each checked against the shared contract model, and every step's results compared directly while the abstract states coincide; non-trivial = >=3 steps executed on both; distinct = distinct (config, op-kind sequence) shapes",
 		RealStub:   storeRealStub,
-		Quick:      16000, Thorough: 800000,
+		Quick:      12000, Thorough: 600000,
+		Assumptions: []string{"Postgres backend not executed: no server in the sandbox"},
 	})
 }
